@@ -11,7 +11,7 @@ import time
 from .. import core
 
 TESTS = ["TestStressPriority", "TestStressSimple", "TestStressJoin", "TestStressUnite", "TestStressLimit",
-         "TestStressPriorityV1", "TestStressSimpleV1", "TestStressJoinV1"]
+         "TestStressPriorityV1", "TestStressSimpleV1", "TestStressJoinV1", "TestStressPure", "TestStressPureV1"]
 
 
 def run(tier, seed, replay):
@@ -59,7 +59,7 @@ def run(tier, seed, replay):
         "theorems": proofs["theorems"], "proof_failures": proofs["failures"],
         "evaluations": runs, "distinct_nontrivial": len(samples),
         "rule": "every TestStress* of harness/v1 and harness/v2 (priority, simple, join copy/no-copy with retained and modified slices, unite with "
-                "a producer that keeps reading what it sent, limit; v1 with Stop/GracefulStop/cancel/AddInput/RemoveInput from other goroutines) "
+                "a producer that keeps reading what it sent, limit, the pure functions (rate conversion, dividers, helpers) called concurrently with results compared to the sequential ones; v1 with Stop/GracefulStop/cancel/AddInput/RemoveInput from other goroutines) "
                 "run %d rounds each under -race; distinct = test functions" % rounds,
         "samples": samples[:12], "races": len(races),
     }
